@@ -24,6 +24,7 @@ func init() {
 	register(&explore.Prop{
 		ID: "C10", Level: levelMC, Explorer: "E1 input-space enumerator, differential against a frozen reference implementation",
 		Rule: "reference = harness/refice, a frozen byte-for-byte copy of the pinned ice sources (never rebuilt from /repo). Scopes (builder files in both directions; merger files in both directions AND mixed: current merger over reference-written inputs, reference merger over current-written inputs): MIX x modes, EMPTY-RECORD (documents without any stored field on the block-copy path), MERGE(k=2), STORED-B subset (two 128-document blocks), DV-C subset (1024-document doc-value chunks), LARGE subset (adaptive chunking across cardinality 1024); both writers (builder, merger) and both directions: bytes written by the CURRENT code are read by the REFERENCE reader, bytes written by the REFERENCE code are read by the CURRENT reader, each observation must equal the reference model; plus the golden corpus of reference-written files under golden/ (SHA-256 pinned). Observations are compared, not bytes (a change that keeps the format readable must not alarm); byte identity is reported as a statistic. " +
+			"further cases: EXTREME (incl. stored values of 5 and 9 MiB), HUGE (70 000 documents; sparse, dense and every-document terms; adaptive and legacy mode), golden norm files; " +
 			"Components where the pinned reference itself is wrong are excluded by name (see coverage.notes); distinct = (case, direction); non-trivial = file crosses a format constant (>=129 docs, >=1025 docs, cardinality >=1024, >=2 doc-value terms) or is a merge output",
 		Assumptions: append(append([]string{}, commonAssumptions...), "C10 is relative to the single pinned reference (commit 76983be); the reference's own known defects (fixed in /repo by fix: commits) are excluded by name"),
 		Budget:      qBudget, Run: runC10,
